@@ -210,6 +210,9 @@ def run(rep: core.Report):
     from rules import shared_sorted
 
     shared_sorted.run(rep, "R11o", ["phonopy/phonon/dos.py", "phonopy/phonon/tetrahedron_mesh.py", "phonopy/structure/tetrahedron_method.py"])
+    from rules import shared_freshwrite
+
+    shared_freshwrite.run(rep, "R11q", ["phonopy/phonon/dos.py", "phonopy/phonon/tetrahedron_mesh.py"], 3)
     _r11f(rep, tu)
     _r11g(rep, tu, P)
     _r11h(rep, C)
